@@ -1,29 +1,57 @@
 // Command e3 runs the small-scope (exhaustive bounded-domain) checks.
+//
+//	e3 <ID>                    run the check (VERIF_TIER=quick|thorough)
+//	e3 <ID> --replay <file>    re-execute the one case recorded in a violation file, without the enumerator
 package main
 
 import (
+	"encoding/json"
 	"fmt"
 	"os"
 
-	"verifharness/checks/c20"
 	"verifharness/lib"
 )
 
-var checks = map[string]func(*lib.Report){
-	"C20": c20.Run,
+type check struct {
+	run    func(*lib.Report)
+	replay func(*lib.Report, json.RawMessage)
 }
+
+var checks = map[string]check{}
 
 func main() {
 	if len(os.Args) < 2 {
-		fmt.Fprintln(os.Stderr, "usage: e3 <property>")
+		fmt.Fprintln(os.Stderr, "usage: e3 <property> [--replay <file>]")
 		os.Exit(2)
 	}
-	f, ok := checks[os.Args[1]]
+	c, ok := checks[os.Args[1]]
 	if !ok {
 		fmt.Fprintln(os.Stderr, "HARNESS-ERROR unknown property", os.Args[1])
 		os.Exit(2)
 	}
 	r := lib.NewReport(os.Args[1])
-	f(r)
+	if len(os.Args) >= 4 && os.Args[2] == "--replay" {
+		b, err := os.ReadFile(os.Args[3])
+		if err != nil {
+			fmt.Fprintln(os.Stderr, "HARNESS-ERROR", err)
+			os.Exit(2)
+		}
+		var f struct {
+			Signature string          `json:"signature"`
+			Replay    json.RawMessage `json:"replay"`
+		}
+		if err := json.Unmarshal(b, &f); err != nil {
+			fmt.Fprintln(os.Stderr, "HARNESS-ERROR", err)
+			os.Exit(2)
+		}
+		c.replay(r, f.Replay)
+		if r.HasViolation(f.Signature) {
+			fmt.Printf("REPLAY verdict: VIOLATION reproduced (%s)\n", f.Signature)
+			os.Exit(1)
+		}
+		fmt.Printf("REPLAY verdict: recorded signature %s NOT reproduced\n", f.Signature)
+		os.Exit(0)
+	}
+	c.run(r)
 	r.Finish()
 }
